@@ -1,13 +1,11 @@
 import FiberModel.DriverUtil
-import FiberModel.C15.Spec
+import FiberModel.C15.ConcSpec
 /-
 Driver for C15. Case fields (after the id):
-  source(cookie|header|query) storage(mem|inj) idle abs ops obs
+  source(cookie|header|query|default) storage(mem|inj) idle abs ops obs
 see harness/cmd/c15/main.go for the op, script and observation syntax.
 -/
 open B DriverUtil C15
-
-def idGen (n : Nat) : Bytes := b "id" ++ natToDec (n + 1)
 
 def hx (s : String) : Except String Bytes :=
   match fromHex s with
@@ -83,15 +81,15 @@ def renderAObs : AObs → String
   | .val (some v) => s!"v{toHexField v}"
   | .keys ks a => "k" ++ "+".intercalate (sortStrings (ks.map toHexField)) ++ (if a then "#" else "")
 
-def renderKeys (st : St) : String :=
-  let ks := (st.store.filter fun e => e.2.live st.now).map fun e => toHexField e.1
+def renderKeys (r : Resp) : String :=
+  let ks := r.keys.map toHexField
   if ks.isEmpty then "-" else "+".intercalate (sortStrings ks)
 
-def renderResp (st : St) (r : Resp) : String :=
+def renderResp (r : Resp) : String :=
   let acts := if r.acts.isEmpty then "noacts" else ".".intercalate (r.acts.map renderAObs)
   let ck := match r.outCk with | none => "cnone" | some none => "cexp" | some (some v) => "c" ++ toHexField v
   let hd := match r.outHd with | none => "hnone" | some v => "h" ++ toHexField v
-  s!"{acts},{ck},{hd},{plusList r.gens},{renderKeys st}"
+  s!"{acts},{ck},{hd},{plusList r.gens},{renderKeys r}"
 
 def runModel (cfg : Cfg) : St → List Op → List String
   | _, [] => []
@@ -100,7 +98,28 @@ def runModel (cfg : Cfg) : St → List Op → List String
     | .adv d => "-" :: runModel cfg { st with now := st.now + d } os
     | .req q =>
       let (st', r) := handle cfg idGen st q
-      renderResp st' r :: runModel cfg st' os
+      renderResp r :: runModel cfg st' os
+
+/-- distribution tags computed along the model run: a request presents a live id past its absolute
+    deadline / an idle-expired id / a forged (never stored) id / a live id -/
+def loadTags (cfg : Cfg) : St → List Op → List String
+  | _, [] => []
+  | st, o :: os =>
+    match o with
+    | .adv d => loadTags cfg { st with now := st.now + d } os
+    | .req q =>
+      let p := presentedId cfg q
+      let t := match st.get p with
+        | some blob => if absExpired st.now blob then ["nt-load-abs-expired"] else ["load-live"]
+        | none => if p = [] then ["load-none"] else if (lookup st.store p).isSome then ["load-idle-expired"] else ["load-unknown-id"]
+      let byid := q.script.filterMap fun a => match a with
+        | .byID x => (match st.get x with
+            | some blob => if cfg.abs > 0 && absExpired st.now blob then some "byid-abs-expired" else some "byid-live"
+            | none => some "byid-miss")
+        | _ => none
+      t ++ byid ++ loadTags cfg (handle cfg idGen st q).1 os
+
+def dedup (l : List String) : List String := l.foldl (fun acc x => if acc.contains x then acc else acc ++ [x]) []
 
 def parseAObs (s : String) : Except String AObs := do
   if s == "-" then return .dash
@@ -142,7 +161,9 @@ def parseObs (s : String) : Except String Obs := do
 def panicObs : Obs := { acts := [], outCk := none, outHd := none, gens := [], keys := [], status := 0 }
 
 def sourceOf : String → Option Source
-  | "cookie" => some .cookie | "header" => some .header | "query" => some .query | _ => none
+  | "cookie" => some .cookie | "header" => some .header | "query" => some .query
+  | "default" => some .cookie     -- `session.Config` without KeyLookup / IdleTimeout: cookie:session_id, 30 min
+  | _ => none
 
 def opTags (ops : List Op) : List String :=
   let reqs := ops.filterMap fun o => match o with | .req q => some q | _ => none
@@ -152,6 +173,87 @@ def opTags (ops : List Op) : List String :=
   (if has (· == .reset) then ["reset"] else []) ++
   (if ops.any (fun o => match o with | .adv _ => true | _ => false) then ["advance"] else [])
 
+/-! ### schedules (overlapping requests): ops `b:<rid>:…`, `s:<rid>`, `e:<rid>`, `a:<secs>` -/
+
+def parseRid (s : String) : Except String Nat :=
+  match s.toNat? with
+  | some n => if n > 99 then throw "outside-domain: rid" else pure n
+  | none => throw "outside-domain: rid"
+
+def parseEv (s : String) : Except String Ev := do
+  match s.splitOn ":" with
+  | ["a", n] =>
+    match n.toNat? with
+    | some d => if d > 100000 then throw "outside-domain: advance" else pure (.adv d)
+    | none => throw "outside-domain: advance"
+  | ["s", rid] => do pure (.step (← parseRid rid))
+  | ["e", rid] => do pure (.finish (← parseRid rid))
+  | ["b", rid, api, ck, hd, qr, script] => do
+    let rid ← parseRid rid
+    match ← parseOp (":".intercalate ["r", api, ck, hd, qr, script]) with
+    | .req q => pure (.start rid q)
+    | _ => throw "outside-domain: malformed op"
+  | _ => throw "outside-domain: malformed op"
+
+def renderCObs : CObs → String
+  | .none => "-"
+  | .started g => s!"S,{plusList g}"
+  | .stepped o g => s!"T,{renderAObs o},{plusList g}"
+  | .finished ck hd keys =>
+    let ck := match ck with | none => "cnone" | some none => "cexp" | some (some v) => "c" ++ toHexField v
+    let hd := match hd with | none => "hnone" | some v => "h" ++ toHexField v
+    let ks := keys.map toHexField
+    s!"F,{ck},{hd},{if ks.isEmpty then "-" else "+".intercalate (sortStrings ks)}"
+
+/-- `none` = the event failed on the implementation (handler did not run to the expected point, status ≠ 200) -/
+def parseCObs (s : String) : Except String (Option CObs) := do
+  if s == "-" then return some .none
+  match s.splitOn "," with
+  | ["S", g] => do pure (some (.started (← parsePlus g)))
+  | ["T", a, g] => do pure (some (.stepped (← parseAObs a) (← parsePlus g)))
+  | ["F", ck, hd, keys] => do
+    let ckv ← (if ck == "cnone" then pure none else if ck == "cexp" then pure (some none)
+               else do pure (some (some (← hx (ck.drop 1).toString))))
+    let hdv ← (if hd == "hnone" then pure none else do pure (some (← hx (hd.drop 1).toString)))
+    pure (some (.finished ckv hdv (← parsePlus keys)))
+  | _ => pure none
+
+def scheduleTags (evs : List Ev) : List String :=
+  -- how many requests are in flight at most; do two requests in flight present the same id?
+  let step (acc : List (Nat × Req) × Nat × Bool) (e : Ev) : List (Nat × Req) × Nat × Bool :=
+    match e with
+    | .start rid q =>
+      if acc.1.any (·.1 == rid) then acc else
+      let same := acc.1.any fun p => (p.2.ck ≠ [] && p.2.ck == q.ck) || (p.2.hd ≠ [] && p.2.hd == q.hd) || (p.2.qr ≠ [] && p.2.qr == q.qr)
+      let fl := (rid, q) :: acc.1
+      (fl, max acc.2.1 fl.length, acc.2.2 || same)
+    | .finish rid => (acc.1.filter (·.1 != rid), acc.2.1, acc.2.2)
+    | _ => acc
+  let r := evs.foldl step ([], 0, false)
+  ["schedule", s!"inflight-{r.2.1}"] ++ (if r.2.1 ≥ 2 then ["nt-overlap"] else []) ++
+    (if r.2.2 then ["nt-overlap-same-id"] else [])
+
+def handleSchedule (id src sto : String) (cfg : Cfg) (absT : Nat) (ops impl : String) : Except String Verdict := do
+  let evs ← (ops.splitOn ";").mapM parseEv
+  evs.forM fun e => if Ev.inDomain e then pure () else throw "outside-domain: script"
+  let mo := (crun cfg idGen {} evs).2.map renderCObs
+  let modelObs := ";".intercalate mo
+  let implL := impl.splitOn ";"
+  let parsed ← implL.mapM parseCObs
+  let spec :=
+    if implL.length != evs.length then some "observation-count"
+    else if parsed.any (·.isNone) then some "request-failed"
+    else cspecRun cfg {} evs (parsed.filterMap fun x => x)
+  match spec with
+  | some e => if e.startsWith "outside-domain" then throw e
+  | none => pure ()
+  let sawData := parsed.any fun o => match o with
+    | some (.stepped (.val (some _)) _) => true
+    | _ => false
+  pure { id := id, modelObs := modelObs, implObs := impl, spec := spec,
+         tags := [src, sto, if absT > 0 then "abs" else "noabs"] ++ scheduleTags evs ++
+                 (if sawData then ["nt-saw-saved-data"] else []) }
+
 def handleCase (f : List String) : Except String Verdict := do
   match f with
   | [id, src, sto, idle, abs, ops, impl] =>
@@ -160,7 +262,12 @@ def handleCase (f : List String) : Except String Verdict := do
     let some idle := idle.toNat? | throw "outside-domain: idle"
     let some abs := abs.toNat? | throw "outside-domain: abs"
     if idle = 0 || idle > 3600 || abs > 100000 || (abs > 0 && abs < idle) then throw "outside-domain: timeouts"
+    if src == "default" && idle != 1800 then throw "outside-domain: the default idle timeout is 30 minutes"
     let cfg : Cfg := { source := source, idle := idle, abs := abs }
+    if (ops.splitOn ";").any (fun o => o.startsWith "b:" || o.startsWith "s:" || o.startsWith "e:") then
+      if impl == "panic" then
+        return { id := id, modelObs := "-", implObs := impl, spec := some "constructor-panicked", tags := [src, sto] }
+      return ← handleSchedule id src sto cfg abs ops impl
     let opl ← (if ops == "-" then pure [] else (ops.splitOn ";").mapM parseOp)
     let mo := runModel cfg {} opl
     let modelObs := if mo.isEmpty then "-" else ";".intercalate mo
@@ -176,7 +283,8 @@ def handleCase (f : List String) : Except String Verdict := do
       | some o => o.acts.any fun a => match a with | .val (some _) => true | _ => false
       | none => false
     pure { id := id, modelObs := modelObs, implObs := impl, spec := spec,
-           tags := [src, sto, if abs > 0 then "abs" else "noabs"] ++ opTags opl ++ (if sawData then ["nt-saw-saved-data"] else []) }
+           tags := [src, sto, if abs > 0 then "abs" else "noabs"] ++ opTags opl ++ dedup (loadTags cfg {} opl) ++
+                   (if sawData then ["nt-saw-saved-data"] else []) }
   | _ => throw s!"outside-domain: expected 7 fields, got {f.length}"
 
 def main : IO Unit := run handleCase
